@@ -94,6 +94,12 @@ def run_problem(desc):
     else:
         full, obs_full = qc0, obs0
     flow = desc["flow"]
+    # the problem AS STATED (plain Move instructions, before the public cut_gates wrapper rewrites them): the judge decides
+    # "no qubit is re-used" on this circuit, so that a wrapper which re-orders a placeholder's qubits cannot hide behind its
+    # own output
+    pctx = CircCtx()
+    problem_canon = pctx.canon_circuit(full)
+    problem_benv = pctx.canon_benv()
     if flow in ("auto", "single") and not has_markers:
         ids = [i for i, inst in enumerate(full.data) if inst.operation.name == "move"]
         full = cut_gates(full, ids)[0]
@@ -133,7 +139,8 @@ def run_problem(desc):
     random_samples = generate_qpd_weights(bases, num_samples=ns)
     sorted_samples = sorted(random_samples.items(), key=lambda x: x[1][0], reverse=True)
     groups = {label: ObservableCollection(so).groups for label, so in subobs.items()}
-    return dict(full=full_canon, full_benv=full_benv, obs_full=obs_full_letters, subcircuits=subcircuits,
+    return dict(full=full_canon, full_benv=full_benv, problem=problem_canon, problem_benv=problem_benv,
+                obs_full=obs_full_letters, subcircuits=subcircuits,
                 ids_by=ids_by, mapsel=mapsel, sorted_samples=sorted_samples, groups=groups, subexps=subexps,
                 ncoeff=len(coeffs))
 
@@ -175,6 +182,7 @@ def subexperiment_case(desc, run, label, z, j):
     case = dict(kind="subexperiment", desc=desc, pick=[_jsonable(label), z, j], canon=canon,
                 ref=ref, ncl=new_qc.num_clbits, ignored_bits=([] if cog.pauli_indices else obs_bits),
                 full=run["full"], full_benv=run["full_benv"], obs_full=run["obs_full"],
+                problem=run["problem"], problem_benv=run["problem_benv"],
                 count_ops={k: int(v) for k, v in real.count_ops().items()})
     return case, contracts
 
@@ -348,13 +356,23 @@ def judge(case, _values=None):
         if any(a == "reset" and b == "reset" for a, b in zip(w, w[1:])):
             probs.append(f"qubit {q}: two consecutive resets")
     nr, why = problem_has_no_reuse(case["full"], case["full_benv"], case["obs_full"])
+    moved = ""
+    if "problem" in case:
+        # the antecedent is a statement about the problem as the caller stated it (Move(source, destination) instructions),
+        # not about what the cut_gates wrapper made of it: if the stated problem has no re-use, clause 1 applies, and the
+        # wrapper must have kept every Move's (source, destination) order
+        nr_p, why_p = problem_has_no_reuse(case["problem"], case["problem_benv"], case["obs_full"])
+        if nr_p and not nr:
+            nr, why = True, []
+            moved = (f" [stated Moves (index, source, destination) {moves_of(case['problem'], case['problem_benv'])}; after "
+                     f"cut_gates {moves_of(case['full'], case['full_benv'])}]")
     nreset = sum(1 for d in out if d["op"][0] == "reset")
     if nreset != case["count_ops"].get("reset", 0):
         probs.append("canonical form and count_ops() disagree on the number of resets")
     if nr and nreset:
         probs.append(f"no qubit is re-used, yet the subexperiment (partition {case['pick'][0]}, sample {case['pick'][1]}, "
                      f"group {case['pick'][2]}, pauli_indices {c['idx']}) contains {nreset} reset(s): "
-                     f"wires {wires}")
+                     f"wires {wires}{moved}")
     vst, vdetail = _values if _values is not None else values_check(case)
     if vst == "differs":
         probs.append(vdetail)
@@ -452,9 +470,11 @@ def gen_markers(rng):
     return nq, items
 
 
-def gen_moves(rng, reuse):
+def gen_moves(rng, reuse, descending=False):
     """hand-placed Moves.  reuse=False: every Move goes onto a fresh qubit from a qubit that is then abandoned.
-    reuse=True: a chain that moves back onto abandoned qubits (and keeps using sources)."""
+    reuse=True: a chain that moves back onto abandoned qubits (and keeps using sources).
+    descending (reuse=False only): qubits are numbered in reverse order of first use, so EVERY Move goes from a higher onto a
+    lower index (Move(source, destination) with source > destination) - the opposite of what cut_wires produces."""
     nq = int(rng.integers(2, 5))
     items = []
     if not reuse:
@@ -486,7 +506,10 @@ def gen_moves(rng, reuse):
             if rng.integers(0, 2):
                 a = live[int(rng.integers(0, len(live) - 1))]
                 items.append(["g", "cx", [], [a, q]])
-        pi = [int(x) for x in rng.permutation(nq)]      # sources/destinations in any index order
+        if descending:
+            pi = [nq - 1 - q for q in range(nq)]        # before relabelling every Move has source < destination
+        else:
+            pi = [int(x) for x in rng.permutation(nq)]      # sources/destinations in any index order
         return nq, relabel_items(items, pi), [pi[q] for q in dead]
     # re-use chain
     items.append(["g", "h", [], [0]])
@@ -635,6 +658,20 @@ FIXED = [
     # hand-placed fresh Move, three explicit labels, idle qubit 3
     dict(nq=4, items=[["g", "h", [], [2]], ["move", 2, 0], ["g", "cx", [], [0, 1]]], obs=["IIZZ", "IIXI"], flow="labels",
          labels="ACBA", num_samples="inf", seed=14),
+]
+
+
+# fresh Moves from a HIGHER onto a LOWER qubit index, cut through the public cut_gates wrapper (flows single / auto), identity on
+# the sources: no re-use, so no reset may survive.  Emitted after all random streams (keeps their random numbers unchanged).
+FIXED_DESCENDING = [
+    dict(nq=3, items=[["g", "h", [], [2]], ["g", "cx", [], [2, 1]], ["move", 2, 0], ["g", "sx", [], [0]], ["g", "cx", [], [0, 1]]],
+         obs=["IZZ", "IXI"], flow="single", labels=None, num_samples="inf", seed=17),
+    # a chain 3 -> 1 -> 0 (qubit 1 is a destination, then a source), qubit 2 ordinary
+    dict(nq=4, items=[["g", "ry", [fr(0.5)], [3]], ["g", "h", [], [2]], ["move", 3, 1], ["g", "cx", [], [1, 2]], ["move", 1, 0],
+                      ["g", "rx", [fr(0.25)], [0]]], obs=["IZIX", "IXIZ", "IIII"], flow="auto", labels=None, num_samples=5, seed=18),
+    # mixed: one ascending, one descending Move in the same circuit
+    dict(nq=4, items=[["g", "h", [], [1]], ["g", "h", [], [2]], ["move", 1, 3], ["move", 2, 0], ["g", "cx", [], [0, 3]]],
+         obs=["ZIIZ", "XIIY"], flow="single", labels=None, num_samples="inf", seed=19),
 ]
 
 
@@ -838,13 +875,26 @@ def generate(rng, tier, outdir):
         desc = dict(nq=nq, items=items, obs=obs, flow=flow, labels=None, num_samples=ns, seed=int(rng.integers(0, 2**31)))
         emit_problem(w, rng, "moves_reuse", desc, per_problem)
 
+    # fresh Moves that all point from a higher onto a lower qubit index (never produced by cut_wires), cut through the public
+    # cut_gates wrapper, identity on every source: the judge decides no-re-use on the STATED problem (plain Moves)
+    for it in range(6 if quick else 80):
+        nq, items, dead = gen_moves(rng, reuse=False, descending=True)
+        obs = identity_on(rand_obs(rng, nq, ["dense", "sparse", "identity"][it % 3]), dead)
+        flow = ["single", "auto"][it % 2]
+        ns = "inf" if it % 3 else int(rng.integers(1, 7))
+        desc = dict(nq=nq, items=items, obs=obs, flow=flow, labels=None, num_samples=ns, seed=int(rng.integers(0, 2**31)))
+        emit_problem(w, rng, "moves_fresh_descending", desc, per_problem)
+    for desc in FIXED_DESCENDING:
+        emit_problem(w, rng, "fixed", dict(desc), 64)
+
     return w.finish(
         rule="problems: (markers) random circuits on 1..4 qubits, 0..6 gates, 1..3 CutWire markers at any position (first/last "
         "on a wire, several on one wire), through cut_wires + "
         "expand_observables; (moves_fresh) hand-placed Moves onto fresh qubits from abandoned qubits; (moves_obs_on_source) the same with "
         "observables that are NOT the identity on the abandoned source qubits (counts as a use); (moves_fresh_labels) fresh Moves with explicit 2-3 letter / integer labels, identity on "
         "abandoned qubits, optional barrier and idle qubit; (dynamic_unseparated) unseparated circuits with own classical bits, "
-        "mid-circuit measurements, user resets and barriers; (moves_reuse) Move chains that re-use qubits; (moves_reuse_target) chains b->c->b after which "
+        "mid-circuit measurements, user resets and barriers; (moves_reuse) Move chains that re-use qubits; (moves_fresh_descending, and three fixed problems) fresh Moves that all go from a higher onto a lower qubit index, cut through "
+        "the public cut_gates wrapper (unseparated / automatic partitions), identity on the sources - the judge decides 'no re-use' on the problem as STATED (plain Moves), not on cut_gates' output; (moves_reuse_target) chains b->c->b after which "
         "the re-used qubit is only the second operand of two-qubit gates and carries the identity (exact budget, 6 samples per group). Markers may be interleaved "
         "across qubits (a, b, a). EVERY generated case is judged (contract judge_accepts_clean_case). Observables: 1..3 Pauli strings, dense / single-letter / identity-only (identity on whole partitions); "
         "flows: partition_problem with automatic labels, with explicit random A/B labels (crossing gates are cut too), and the "
